@@ -14,6 +14,7 @@ from ..refsem import Interp, Unspec, values_equal
 LEVEL = "model_checking"
 F2 = ("vec", "float", 2)
 F4 = ("vec", "float", 4)
+M3 = ("mat", "float", 3, 3)
 
 
 def wrap(var, limit):
@@ -35,6 +36,9 @@ def driver_A():
         func("arrviacall", [("int", "d")], "int", [("decl", "int", "before", IDX(V("arr"), V("d"))), ("decl", "int", "r", ("call", "bumparr", [V("d")])),
                                                   ("ret", B("+", B("*", V("before"), lit(100)), B("+", B("*", IDX(V("arr"), V("d")), lit(10)), V("r"))))]),
         func("digest", [("int", "d")], "int", [("ret", B("+", B("+", B("*", V("counter"), lit(100)), B("*", IDX(V("arr"), 0), lit(10))), B("+", IDX(V("arr"), 1), B("*", FLD(V("gs"), "n"), lit(1000)))))]),
+        # the old value of a vector global is kept in a local while the global is assigned (the local must not follow the global)
+        func("keepold", [("int", "d")], "float", [("decl", F4, "old", V("gv")), ASG(V("gv"), B("*", V("gv"), lit(2.0))), ASG(IDX(V("gv"), 0), lit(9.0)),
+                                                 ("ret", B("+", IDX(V("old"), V("d")), B("*", IDX(V("gv"), V("d")), lit(100.0))))]),
         # helper chains two calls deep: the middle function touches no global itself, the innermost one reads / writes one
         func("rd", [("int", "d")], "int", [("ret", B("+", B("*", V("counter"), lit(10)), V("d")))], export=False),
         func("mid", [("int", "d")], "int", [("ret", B("+", ("call", "rd", [V("d")]), lit(1)))], export=False),
@@ -73,6 +77,10 @@ def driver_B():
         func("fact", [("int", "n")], "int", [("decl", "int", "keep", V("n")), ("if", B(">", V("n"), lit(1)), ("block", [("decl", "int", "sub", ("call", "fact", [B("-", V("n"), lit(1))])),
                                                                                                                         ("ret", B("*", V("keep"), V("sub")))]), None), ("ret", lit(1))], export=False),
         func("callrec", [("int", "d")], "int", [("ret", B("+", ("call", "fact", [B("+", V("d"), lit(3))]), B("*", V("counter"), lit(1000))))]),
+        # matrix products: every product is a fresh value (an earlier product survives a later one, in this and in later invocations)
+        func("matprod", [("int", "d")], "float", [("decl", M3, "a", None), ASG(IDX(IDX(V("a"), 0), 0), lit(2.0)), ASG(IDX(IDX(V("a"), 1), 1), B("+", lit(3.0), V("d"))), ASG(IDX(IDX(V("a"), 2), 2), lit(1.0)),
+                                                 ASG(IDX(IDX(V("a"), 0), 1), lit(1.0)), ("decl", M3, "p", B("*", V("a"), V("a"))), ("decl", M3, "q", B("*", V("p"), V("a"))),
+                                                 ("ret", B("+", B("+", IDX(IDX(V("p"), 0), 0), B("*", IDX(IDX(V("p"), 1), 1), lit(10.0))), B("*", IDX(IDX(V("q"), 1), 1), lit(1000.0))))]),
         # a call site with literal arguments only, whose callee writes to its parameter: every invocation binds the literal afresh
         func("drain", [("int", "k")], "int", [ASG(V("k"), B("-", V("k"), lit(1))), ("ret", V("k"))], export=False),
         func("literalsite", [("int", "d")], "int", [("ret", B("+", B("*", ("call", "drain", [lit(3)]), lit(10)), V("d")))]),
